@@ -46,12 +46,31 @@ func runC17P(s *kernel.Sim) {
 	cfg := &sharedConfig.RetryConfig{Attempts: attempts, InitialCooldownSeconds: cooldown, CooldownMultiplier: mult,
 		Conditions: sharedConfig.RetryConfigConditions{StatusCode: []sharedConfig.Range[int]{{From: 500, To: 599}, {From: 429, To: 429}}}}
 	plugin := remedies.NewRetryPlugin(clock.NewRealClock())
+	// store pressure: in some runs more than a thousand other sequences become
+	// alive in the shared retry-state store at some point of the history
+	crowdAt, crowd := -1, 0
+	if attempts >= 2 && tp.Chance(1, 6) {
+		crowdAt, crowd = tp.Choose(nOps), 1100+tp.Choose(400)
+		s.Knobs["other_live_sequences"], s.Knobs["crowd_at_op"] = crowd, crowdAt
+	}
 	calls := map[string]*c17call{}
 	seqs := []string{"s1", "s2", "s3"}
 	statuses := []int{500, 503, 599, 429, 200, 404, 499, 600}
 	n := 0
 	for op := 0; op < nOps && !s.Failed(); op++ {
+		if op == crowdAt {
+			for i := 0; i < crowd; i++ {
+				id := fmt.Sprintf("crowd-%d", i)
+				_, _ = plugin.OnResponse(lunarMessages.OnResponse{ID: id, SequenceID: id, Status: 500, Headers: map[string]string{}}, cfg)
+			}
+			s.FaultFired("retry_store_pressure")
+			s.Event("crowd", fmt.Sprint(crowd))
+		}
 		seq := seqs[tp.Choose(len(seqs))]
+		pressured := crowdAt >= 0 && op >= crowdAt-2
+		if pressured && tp.Chance(3, 4) {
+			seq = seqs[0] // keep one sequence busy while the store is under pressure
+		}
 		c := calls[seq]
 		if c == nil {
 			c = &c17call{}
@@ -70,12 +89,18 @@ func runC17P(s *kernel.Sim) {
 		now = s.Now()
 		// new logical call (txn id == sequence id) or a follow-up of the open one
 		fresh := !c.open || tp.Chance(1, 6)
+		if pressured && c.open && !c.ended && !c.exhausted {
+			fresh = false
+		}
 		n++
 		id := fmt.Sprintf("%s-r%d", seq, n)
 		if fresh {
 			id = seq
 		}
 		status := statuses[tp.Weighted([]int{4, 2, 1, 2, 2, 1, 1, 1})]
+		if pressured && tp.Chance(2, 3) {
+			status = 500
+		}
 		inCond := (status >= 500 && status <= 599) || status == 429
 		act, err := plugin.OnResponse(lunarMessages.OnResponse{ID: id, SequenceID: seq, Status: status, Headers: map[string]string{}}, cfg)
 		if err != nil {
